@@ -9,6 +9,7 @@ import (
 	"sort"
 	"strings"
 
+	"github.com/superfly/litefs/internal"
 	"github.com/superfly/ltx"
 )
 
@@ -20,14 +21,15 @@ func ReadPosMapFrom(r io.Reader) (map[string]ltx.Pos, error) {
 	}
 
 	// Read entries and insert into map.
-	m := make(map[string]ltx.Pos, n)
+	// The count comes from the wire: do not use it as an allocation hint.
+	m := make(map[string]ltx.Pos)
 	for i := uint32(0); i < n; i++ {
 		var nameN uint32
 		if err := binary.Read(r, binary.BigEndian, &nameN); err != nil {
 			return nil, err
 		}
-		name := make([]byte, nameN)
-		if _, err := io.ReadFull(r, name); err != nil {
+		name, err := internal.ReadBytes(r, nameN)
+		if err != nil {
 			return nil, err
 		}
 
